@@ -491,5 +491,8 @@ func (h *NativeHashSetIterator[V]) NextValue() (value.Value, value.Value) {
 }
 
 func (h *NativeHashSetIterator[V]) Reset() {
+	// start over on the current content of the collection
 	h.index = 0
+	h.version = h.HashSet.version
+	h.captureSnapshot()
 }
